@@ -221,6 +221,22 @@ func wrapClassRule(p *Prog, r *Report, rule string, o wrapOpts) int {
 						}
 					}
 				}
+				// a function literal called on the spot (a row of an unrolled table of steps): what the calls in
+				// its body may produce comes out of this call
+				if lit, isLit := ast.Unparen(c.Fun).(*ast.FuncLit); isLit {
+					ast.Inspect(lit.Body, func(y ast.Node) bool {
+						if ic, ok := y.(*ast.CallExpr); ok {
+							for _, ck := range p.calleeKeys(fi.Pkg, ic) {
+								for s := range prod[ck] {
+									if want[s] {
+										rel = append(rel, s)
+									}
+								}
+							}
+						}
+						return true
+					})
+				}
 				if len(rel) == 0 {
 					continue
 				}
